@@ -1,7 +1,7 @@
 (* C13 — type sharing is sound (PARTIAL: the two identity keys; the other sharing mechanisms are covered by the
    differential matrix of lib/c13.py). *)
-From Coq Require Import List Bool String Ascii ZArith NArith.
-From OAS Require Import Lib.Str Model.Sharing Proof.Sharing Model.Canon Proof.Canon.
+From Coq Require Import List Bool String Ascii ZArith NArith Permutation.
+From OAS Require Import Lib.Str Model.Sharing Proof.Sharing Model.Canon Proof.Canon Model.Dedup Proof.Dedup.
 Import ListNotations.
 Local Open Scope string_scope.
 
@@ -24,6 +24,15 @@ Theorem C13_value_union_key_sound : forall u1 u2 k, value_union_key u1 = Some k 
   (forall v, In v u1 \/ In v u2 -> exists x vs, v = VValues (x :: vs))
   /\ (forall s, In s (wire_names (vu_values u1)) <-> In s (wire_names (vu_values u2))).
 Proof. exact value_union_key_sound. Qed.
+
+(* Response enums are merged when their signatures are equal (Model/Dedup.v): two merged enums have, as multisets,
+   the same variants by (status code, variant name, media types), and each pair of corresponding variants has the same
+   multiset of (content category, schema type) media types. *)
+Theorem C13_response_signature_sound : forall a b, signature a = signature b -> Permutation (map vsig_of a) (map vsig_of b).
+Proof. exact signature_sound. Qed.
+Theorem C13_response_variant_media : forall v w, vsig_of v = vsig_of w ->
+  status v = status w /\ vname v = vname w /\ Permutation (medias v) (medias w).
+Proof. exact vsig_medias. Qed.
 
 (* Canonical-schema identity: two schemas whose canonical forms are equal are the same JSON tree up to the order of
    object members and the order of all-string arrays directly under required / type / enum — nothing else (value
@@ -57,6 +66,7 @@ Proof.
   vm_compute. repeat split; try reflexivity; [tauto|]. intros [H|[]]; discriminate.
 Qed.
 
+Check C13_response_signature_sound : forall a b, signature a = signature b -> Permutation (map vsig_of a) (map vsig_of b).
 Check C13_value_union_key_sound : forall u1 u2 k, value_union_key u1 = Some k -> value_union_key u2 = Some k ->
   (forall v, In v u1 \/ In v u2 -> exists x vs, v = VValues (x :: vs))
   /\ (forall s, In s (wire_names (vu_values u1)) <-> In s (wire_names (vu_values u2))).
@@ -79,6 +89,14 @@ Example C13_nonvacuous :
   /\ value_union_key [VValues [JStr "a"]; VValues [JStr "b"]; VOpen "i"] = None.
 Proof. vm_compute. repeat split; try reflexivity; discriminate. Qed.
 
+Example C13_signature_nonvacuous :
+  let ok := {| status := 200; vname := "Ok"; medias := [(0%N, "Job"); (2%N, "String")] |} in
+  let ok' := {| status := 200; vname := "Ok"; medias := [(2%N, "String"); (0%N, "Job")] |} in
+  let nf := {| status := 404; vname := "NotFound"; medias := [] |} in
+  let okv := {| status := 200; vname := "Ok"; medias := [(0%N, "Vec<Job>")] |} in
+  signature [ok; nf] = signature [nf; ok'] /\ signature [ok; nf] <> signature [okv; nf].
+Proof. vm_compute. split; [reflexivity | discriminate]. Qed.
+
 Example C13_canonical_nonvacuous :
   norm (JO [("required", JA [JS "b"; JS "a"]); ("enum", JA [JS "x"; JN 1]); ("type", JS "object")])
   = norm (JO [("type", JS "object"); ("enum", JA [JS "x"; JN 1]); ("required", JA [JS "a"; JS "b"])])
@@ -93,3 +111,5 @@ Print Assumptions C13_old_enum_key_refuted.
 Print Assumptions C13_old_union_key_refuted.
 Print Assumptions C13_value_union_key_sound.
 Print Assumptions C13_old_value_union_key_refuted.
+Print Assumptions C13_response_signature_sound.
+Print Assumptions C13_response_variant_media.
